@@ -351,15 +351,40 @@ def linear(t):
     return tuple(sorted(((a, c) for a, c in atoms.items() if c), key=repr)), const
 
 
-def carried_by(values_t, node_t, key):
+def _attr_table(t, key, fl=None, depth=0):
+    """The graph G when t is the table nx.get_node_attributes(G, key), a filtered copy `{n: v for n, v in T.items() if c}`
+    of such a table, or a name bound to one of these on every path."""
+    t = strip_wrappers(t)
+    cc = is_call(t, "networkx.get_node_attributes")
+    if cc and len(cc[0]) >= 2 and cc[0][1] == ("const", key):
+        return cc[0][0]
+    if depth > 3:
+        return None
+    if t and t[0] == "comp" and t[1] == "dict" and len(t[4]) == 1 and t[3][0] == "tuple" and len(t[3][1]) == 2:
+        it = t[4][0][1]
+        k, v = t[3][1]
+        if k == ("sub", it, ("const", 0)) and v == ("sub", it, ("const", 1)) and it[0] == "iter":
+            m = method_call(it[2], "items")
+            if m and not m[2]:
+                return _attr_table(m[0], key, fl, depth + 1)
+    if fl is not None and t and t[0] in ("var", "ifexp"):
+        alts = fl.alternatives(t)
+        if alts and len(alts) > 1:
+            gs = {_attr_table(a, key, fl, depth + 1) for a in alts}
+            if len(gs) == 1:
+                return gs.pop()
+    return None
+
+
+def carried_by(values_t, node_t, key, fl=None):
     """The graph term G when values_t is the value of attribute `key` of node node_t of G and node_t ranges over the nodes
     of G that have it: `for node, values in nx.get_node_attributes(G, key).items()`, or `G.nodes[node][key]` for a node of
     a loop over G's nodes."""
     lst, en = elem_of(values_t), elem_of(node_t)
     if lst and lst[0] == "value" and en and en[0] == "key" and lst[1] == en[1]:
-        cc = is_call(strip_wrappers(en[1]), "networkx.get_node_attributes")
-        if cc and len(cc[0]) >= 2 and cc[0][1] == ("const", key):
-            return cc[0][0]
+        g = _attr_table(en[1], key, fl)
+        if g is not None:
+            return g
     na = node_attr(values_t)
     if na and na[1] == node_t and na[2] == ("const", key) and (na[3] is None or na[3] in (("list", ()), ("tuple", ()))):
         if en and en[0] in ("elem", "key") and strip_wrappers(en[1]) in (("attr", na[0], "nodes"), na[0]):
